@@ -683,6 +683,16 @@ def build_corpus():
     for n in (2, 3):
         for seq in itertools.product(fa, repeat=n):
             c.conn("frames%d" % n, seq)
+    # -- 5b. memo back-references (a repeated name object) in a later frame of a connection:
+    # every frame must be decoded with an empty memo (protocol 4 MEMOIZE numbers entries implicitly)
+    for proto in (0, 1, 2, 3, 4):
+        x = a3[0]
+        y = [x[0], a3[1][1], a3[1][2], a3[1][3]]  # same name, different data
+        sh = c.add_frame("py3", proto, [x, y], share="name")
+        other = c.add_frame("py3", proto, [a3[2], a3[3]])
+        c.conn("frames-memo", [other, sh])
+        c.conn("frames-memo", [sh, sh])
+        c.conn("frames-memo", [other, other, sh])
     for proto in (0, 1, 2, 3, 4):  # shortest possible connections: empty lists, all segmentations
         e = c.add_frame("py3", proto, [], opt=True)
         c.conn("frames2-empty", [e, e])
